@@ -175,7 +175,7 @@ def run_one(mut, keep_log=False):
         s = s.replace(old, new, 1)
         with open(p, "w", encoding="utf8") as f:
             f.write(s)
-        env = dict(os.environ, PYTHONPATH=tmp, VERIF_SELFTEST="1")
+        env = dict(os.environ, PYTHONPATH=tmp, VERIF_SELFTEST="1", VERIF_EVIDENCE_DIR=os.path.join(tmp, "evidence"))
         t0 = time.time()
         r = subprocess.run([os.path.join(HERE, "vv"), "check", pid, "--tier", "quick"], env=env, capture_output=True, text=True,
                            cwd=HERE, check=False)
@@ -208,5 +208,4 @@ def main(args):
         print(f"{pid} {name:42s} {dt:5.1f}s {verdict}", flush=True)
         bad += not verdict.startswith(("caught", "equivalent-ok"))
     # restore evidence of the unchanged tree for the touched properties
-    print("selftest: rerun the checks on /repo to restore evidence files")
     return 1 if bad else 0
